@@ -6,6 +6,8 @@ import (
 	"go/token"
 	"go/types"
 	"sort"
+
+	"golang.org/x/tools/go/types/typeutil"
 )
 
 type ctrlKind int
@@ -113,6 +115,8 @@ func (ev *Evaluator) stmt(env *Env, s ast.Stmt) ctrl {
 		return ev.stmt(env, s.Stmt)
 	case *ast.SwitchStmt:
 		return ev.switchStmt(env, s)
+	case *ast.TypeSwitchStmt:
+		return ev.typeSwitch(env, s)
 	case *ast.ReturnStmt:
 		if len(s.Results) == 0 {
 			return ctrl{kind: ctrlReturn, bare: true}
@@ -153,7 +157,17 @@ func (ev *Evaluator) stmt(env *Env, s ast.Stmt) ctrl {
 			}
 		}
 	case *ast.DeferStmt:
-		// deferred calls are not modelled (only Close/Done in the analysed fragments)
+		// function value, receiver and arguments are evaluated now; the call runs when the enclosing
+		// function returns. Close on a file handle without a registered model has no modelled effect.
+		if fn, ok := typeutil.Callee(env.pkg.TypesInfo, s.Call).(*types.Func); ok && fn != nil {
+			if _, modelled := ev.Extern[fn.FullName()]; !modelled && (fn.FullName() == "(*os.File).Close" || fn.FullName() == "(io.Closer).Close") {
+				return ctrl{}
+			}
+		}
+		if env.frame == nil {
+			ev.fail(s.Pos(), "defer outside a function activation")
+		}
+		env.frame.deferred = append(env.frame.deferred, ev.prepareCall(env, s.Call))
 	default:
 		ev.fail(s.Pos(), "unsupported statement %T", s)
 	}
@@ -344,6 +358,71 @@ func (ev *Evaluator) switchStmt(env *Env, s *ast.SwitchStmt) ctrl {
 		return ev.caseBody(e, deflt)
 	}
 	return ctrl{}
+}
+
+// typeSwitch supports switches over an error value whose dynamic type is known (ErrVal.Dyn) or nil.
+func (ev *Evaluator) typeSwitch(env *Env, s *ast.TypeSwitchStmt) ctrl {
+	env = env.child()
+	if s.Init != nil {
+		ev.stmt(env, s.Init)
+	}
+	var x ast.Expr
+	var bind *ast.Ident
+	switch a := s.Assign.(type) {
+	case *ast.ExprStmt:
+		x = a.X.(*ast.TypeAssertExpr).X
+	case *ast.AssignStmt:
+		x = a.Rhs[0].(*ast.TypeAssertExpr).X
+		bind = a.Lhs[0].(*ast.Ident)
+	}
+	v := ev.resolve(ev.expr(env, x))
+	dyn := ""
+	switch xv := v.(type) {
+	case Nil:
+		dyn = "nil"
+	case ErrVal:
+		dyn = xv.Dyn
+	}
+	if dyn == "" {
+		ev.fail(s.Pos(), "type switch on a value of unknown dynamic type (%s)", Show(v))
+	}
+	info := env.pkg.TypesInfo
+	var chosen *ast.CaseClause
+	for _, st := range s.Body.List {
+		cc := st.(*ast.CaseClause)
+		if cc.List == nil {
+			if chosen == nil {
+				chosen = cc
+			}
+			continue
+		}
+		for _, te := range cc.List {
+			name := "nil"
+			if tv, ok := info.Types[te]; ok && tv.IsType() {
+				name = types.TypeString(tv.Type, nil)
+			}
+			if name == dyn {
+				chosen = cc
+			}
+		}
+		if chosen != nil && chosen.List != nil {
+			break
+		}
+	}
+	if chosen == nil {
+		return ctrl{}
+	}
+	cenv := env.child()
+	if bind != nil {
+		if obj := info.Implicits[chosen]; obj != nil {
+			bound := v
+			if e, ok := v.(ErrVal); ok && e.Concrete != nil && chosen.List != nil {
+				bound = e.Concrete
+			}
+			cenv.define(obj, bound)
+		}
+	}
+	return ev.caseBody(cenv, chosen)
 }
 
 func (ev *Evaluator) caseBody(env *Env, cc *ast.CaseClause) ctrl {
